@@ -7,7 +7,7 @@ from mirlib import Fn, MustFacts, Sem, place_key
 TRANSPARENT = re.compile(
     r"core::ops::deref::Deref(Mut)?>::deref(_mut)?$|core::clone::Clone>::clone$|^core::clone::Clone::clone$"
     r"|core::convert::AsRef<.*>>::as_ref$|core::borrow::Borrow<.*>>::borrow$|::as_str$|::as_slice$|::as_ref$|::as_deref$|::as_mut$"
-    r"|::as_path$|::to_owned$|::to_string$|::to_path_buf$|core::convert::(Into|From)<.*>>::(into|from)$"
+    r"|::as_path$|::to_owned$|::to_string$|::to_path_buf$|core::convert::(Into|From)<.*>>::(into|from)$|^core::convert::(Into|From)::(into|from)$"
     r"|IntoIterator>::into_iter$|IntoIterator for .*>::into_iter$|core::slice::<impl \[T\]>::iter$|::iter$|core::option::Option::<T>::(unwrap|expect|unwrap_or_default|cloned|copied)$"
     r"|core::result::Result::<T, E>::(unwrap|expect)$|alloc::rc::Rc::<T>::new$|alloc::boxed::Box::<T>::new$|alloc::sync::Arc::<T>::new$"
     r"|alloc::string::String::from$|alloc::borrow::ToOwned>::to_owned$|alloc::string::ToString>::to_string$|<str as alloc::string::SpecToString>::spec_to_string$")
@@ -239,3 +239,35 @@ def mode_at(fn, mf, bb, place_local):
         if a[0] == "variant" and a[1][0] == place_local:
             return a[2]
     return None
+
+
+def access_paths(fn, op, extra_transparent=None, depth=6):
+    """Set of (root, path) an operand may have, expanding multi-definition locals (phi) up to `depth` levels."""
+    out = set()
+
+    def go(o, d, suffix):
+        r, p = access_path(fn, o, extra_transparent=extra_transparent)
+        if r[0] == "phi" and d > 0:
+            l = r[1]
+            for df in fn.defs.get(l, []):
+                if df[0] == "c":
+                    t = fn.blocks[df[1]]["t"]
+                    c = t.get("callee") or ""
+                    if t["args"] and (TRANSPARENT.search(c) or (extra_transparent and extra_transparent.search(c))):
+                        go(t["args"][0], d - 1, p + suffix)
+                    else:
+                        out.add((("call", c, df[1]), p + suffix))
+                else:
+                    rv = fn.rvalue_at(df)
+                    if rv[0] == "use":
+                        go(rv[1], d - 1, p + suffix)
+                    elif rv[0] in ("ref", "ptr"):
+                        go(["c", rv[2]], d - 1, p + suffix)
+                    elif rv[0] == "cast":
+                        go(rv[2], d - 1, p + suffix)
+                    else:
+                        out.add((("op", rv[0], df[1], df[2]), p + suffix))
+        else:
+            out.add((r, p + suffix))
+    go(op, depth, ())
+    return out
